@@ -114,12 +114,16 @@ Create(c, ends, ns) ==
 (*   "partial-call"  the namespace of the call holds one, another involved *)
 (*                   namespace does not (id collision of an AL instance    *)
 (*                   whose new ends reach into another namespace)          *)
+(*   "partial-call-span"  ... and the new ends lie in both: an end point in *)
+(*                   the namespace of the call and one in the other        *)
 (*   "partial-other" only another involved namespace holds one             *)
-RejCase(homes, ns, g0) ==
+RejCase(homes, ns, g0, ends) ==
   LET has(h) == \E a \in store : a.g = g0 /\ a.ns = h IN
   IF homes = {ns} THEN "single"
   ELSE IF \A h \in homes : has(h) THEN "all"
-  ELSE IF has(ns) THEN "partial-call" ELSE "partial-other"
+  ELSE IF has(ns)
+       THEN IF ns \in EndNs(ends) THEN "partial-call-span" ELSE "partial-call"
+       ELSE "partial-other"
 Reject(c, ends, ns, g0) ==
   LET homes == {ns} \cup EndNs(ends)
       has(h) == \E a \in store : a.g = g0 /\ a.ns = h
@@ -134,7 +138,7 @@ Reject(c, ends, ns, g0) ==
   /\ hist' = IF GenDepth > 0
              THEN Append(hist, [op |-> "reject", cls |-> c, ends |-> ends,
                                 ns |-> ns, of |-> g0[2],
-                                case |-> RejCase(homes, ns, g0)])
+                                case |-> RejCase(homes, ns, g0, ends)])
              ELSE hist
   /\ UNCHANGED xpar
 
